@@ -66,6 +66,19 @@ var appActions = map[string]appAction{
 		}
 		return err
 	}},
+	// a tracked history query that the application gives up at once: the iterator is closed before the query has
+	// ended; the results and the end of the query arrive all the same
+	"app:hist_abandon": {f: func(ctx context.Context, e *env) error {
+		n := e.reqCount()
+		it := e.histH.Fetch(ctx, history.Query{ID: "q1"}, peerJID, e.s)
+		// the query is on the wire before the application gives up (otherwise nothing of it would ever reach the peer)
+		if w := e.waitFor(n, func() bool { return false }, reqWait); w != "req" {
+			_ = it.Close()
+			return errors.New("driver: the history query was not sent")
+		}
+		_ = it.Close()
+		return nil
+	}},
 	// a message sent with a receipt request: the application waits for the receipt
 	"app:rcpt_send": {sends: true, f: func(ctx context.Context, e *env) error {
 		// (Message.Wrap yields a start element without a namespace, which SendMessage refuses)
